@@ -10,6 +10,7 @@ from __future__ import annotations
 
 import itertools
 import random
+import sys
 
 from .common import Acc, stable_hash
 from . import sm_model
@@ -43,7 +44,8 @@ RULE = {
 
 REQUIRED = {
     "C01": {"clock-moves-between-engage-and-execute": 1000, "verbose-logging-on": 500, "disengage-stop": 50, "must_finish-continue": 50, "default-fallback": 50, "now-chain": 50,
-            "op-engage-force": 20, "op-engage-initial": 20, "expiry-hop": 50, "in-state-done": 20},
+            "op-engage-force": 20, "op-engage-initial": 20, "expiry-hop": 50, "in-state-done": 20,
+            "iteration-with-100-or-more-nested-transitions": 3},
     "C02": {"clock-moves-between-engage-and-execute": 1000, "verbose-logging-on": 500, "expiry-hop": 100, "expiry-finish-stop": 20, "cycle-restart": 100, "exact-landing-strict": 50,
             "tie-forked": 20, "long-pause-expiry": 20, "op-nt-write": 20, "three-consecutive-cycles": 10,
             "preexisting-duration": 10},
@@ -216,6 +218,16 @@ def gen_case(rng: random.Random, pid: str, uid: str) -> dict:
                 if nm_ not in (a_, b_):
                     script[nm_] = [["next", a_, False]] * len(script[nm_])          # wherever the machine starts, it ends up in the cycle
         script["__cyclic__"] = True
+    backlog = 0
+    if not marathon and "__cyclic__" not in script and rng.random() < 0.012 and len(names) >= 2:
+        # a backlog worked off inside ONE iteration: two or three states hand over to each other with next_state_now()
+        # K times each (a chain of 2K..3K nested transitions; the library itself copes with about 240), then carry on
+        backlog = rng.choice([8, 30, 51, 53, 60])
+        cyc = rng.sample(names, rng.choice([2, 2, 3]) if len(names) >= 3 else 2)
+        if len(cyc) == 3:
+            backlog = min(backlog, 40)
+        for i_, nm_ in enumerate(cyc):
+            script[nm_] = [["now", cyc[(i_ + 1) % len(cyc)], False]] * backlog + script[nm_][:20]
     always_disable = False
     if auto and rng.random() < 0.2:
         # done() followed at once by next_state_now(x): done() has the last word.  x is never a must_finish state - what a
@@ -237,7 +249,7 @@ def gen_case(rng: random.Random, pid: str, uid: str) -> dict:
             script[nm] = [(["next", nm, False] if rng.random() < 0.3 else a) for a in script[nm]]
     verbose = rng.choice([None, None, True, False])
     ds_state = rng.choice([None, "auto", "auto", "teleop", "disabled"]) if auto else None
-    return {"uid": uid, "pid": pid, "marathon": marathon, "verbose": verbose, "ds": ds_state, "auto": auto, "grid": grid, "period": period, "classes": classes,
+    return {"uid": uid, "pid": pid, "marathon": marathon, "backlog": backlog, "verbose": verbose, "ds": ds_state, "auto": auto, "grid": grid, "period": period, "classes": classes,
             "final": classes[-1]["name"], "script": script, "pre_nt": pre_nt, "sibling": (not auto) and rng.random() < 0.25,
             "instantiate_bases": len(classes) > 1 and rng.random() < 0.5,
             "always_disable": always_disable,
@@ -728,6 +740,10 @@ class Driver:
         dur = self.dur.__getitem__
         # ---- direct C01 clauses, judged on the observation alone
         n_now = sum(1 for e in log if e[0] == "now")
+        if n_now >= 100:
+            self.ev("iteration-with-100-or-more-nested-transitions")
+        elif n_now >= 16:
+            self.ev("iteration-with-16-or-more-nested-transitions")
         direct = []
         if req_before and not self.done_after_engage and not any(e[0] == "user_done" for e in log):
             if len(obs_calls) != 1 + n_now:
@@ -1440,6 +1456,7 @@ def _run_one(case, acc, ops=None, verbose=False):
 def run_shard(spec):
     import hal.simulation as hs
     hs.pauseTiming()
+    sys.setrecursionlimit(6000)        # backlog cases nest 120 transitions deep; generated state functions add two frames per level
     pid = spec["pid"]
     rng = random.Random(spec["seed"])
     acc = Acc()
@@ -1490,6 +1507,7 @@ def run_shard(spec):
 def replay(pid, case):
     import hal.simulation as hs
     hs.pauseTiming()
+    sys.setrecursionlimit(6000)
     _enable_line_budget()
     acc = Acc()
     case = dict(case)
